@@ -185,6 +185,15 @@ def cases(rng, tier):
         yield Case(program=f"(({exc} ㄷㅈㅎㄴ) (ㄱㅇㄱ ㄷㅈㅎㄴ ㅎ) ㅅㄷㅎㄷ) (ㄱㅇㄱ ㅎ) ㅅㄷㅎㄷ", variants=(exc,), tag='rethrow')
         yield Case(program=f"(({exc} ㄷㅈㅎㄴ) ((ㄴ ㄱㅇㄱ ㄷㅂㅎㄷ) ㄷㅈㅎㄴ ㅎ) ㅅㄷㅎㄷ) (ㄱㅇㄱ ㅎ) ㅅㄷㅎㄷ",
                    variants=(f"ㄴ {exc} ㄷㅂㅎㄷ",), tag='wrap-rethrow')
+        # a failed *shared element* — caught once through an index — fails identically when a higher-order built-in needs it
+        # again in a strict position of a built-in function (fold with ㄷ, collect into ㄷ, join): the very exception, caught or
+        # uncaught (seeded change S10l handed memoised outcomes to built-ins directly: a memoised failure arrived as a value)
+        the_list = f"(ㄱ ({exc} ㄷㅈㅎㄴ) ㄷ ㅁㄹㅎㄹ)"
+        first = "(ㄴ ㄱㅇㄱ ㅎㄴ (ㄱㅇㄱ ㅎ) ㅅㄷㅎㄷ)"
+        for use in ["(ㄷ ㄱㅇㄱ ㅅㄹㅎㄷ)", "(ㄱㅇㄱ ㄷ ㅅㄹㅎㄷ)", "(ㄱㅇㄱ (ㄷ ㅁㅂㅎㄴ) ㅎㄴ)", "(ㄱㅇㄱ ㄱㅁㅎㄴ)", "(ㄱㅇㄱ ㄱ ㅅㄹㅎㄷ)"]:
+            yield Case(program=f"{the_list} ({use} (ㄱㅇㄱ ㅎ) ㅅㄷㅎㄷ ㅎ) ㅎㄴ", variants=(exc,), tag='shared-element-once')
+            yield Case(program=f"{the_list} ({first} ({use} (ㄱㅇㄱ ㅎ) ㅅㄷㅎㄷ) ㅁㄹㅎㄷ ㅎ) ㅎㄴ", variants=(f"{exc} {exc} ㅁㄹㅎㄷ",), tag='shared-element-again')
+            yield Case(program=f"{the_list} ({first} {use} ㅁㄹㅎㄷ ㅎ) ㅎㄴ", variants=(f"{exc} ㄷㅈㅎㄴ",) if False else (), tag='shared-element-again-uncaught')
         # exception raised while executing the first argument of ㄱㄹ goes to its handler / propagates
         yield Case(program=f"({exc} ㄷㅈㅎㄴ ㄱㅅㅎㄴ) (ㄱㅇㄱ ㄱㅅㅎㄴ ㅎ) (ㄱㅇㄱ ㄱㅅㅎㄴ ㅎ) ㄱㄹㅎㄹ", tag='bind-handler-eval')
         yield Case(program=f"((ㄴ ㄱㅅㅎㄴ) ({exc} ㄷㅈㅎㄴ ㅎ) ㄱㄹㅎㄷ) (ㄱㅇㄱ ㄱㅅㅎㄴ ㅎ) (ㄱㅇㄱ ㄱㅅㅎㄴ ㅎ) ㄱㄹㅎㄹ",
